@@ -485,7 +485,7 @@ func (c *SCIONClient) measureClockOffsetSCION(ctx context.Context, mtrcs *scionC
 								Header:     slayers.PacketAuthOption{EndToEndOption: authOpt},
 								ScionLayer: &scionLayer,
 								PldType:    slayers.L4UDP,
-								Pld:        buf[len(buf)-int(udpLayer.Length):],
+								Pld:        udpLayer.Contents[:len(udpLayer.Contents)+len(udpLayer.Payload)],
 							},
 							c.Auth.buf,
 							c.Auth.mac,
